@@ -129,6 +129,17 @@ func fmtName(f insts.FormatType) string {
 	return "OTHER"
 }
 
+// wide64: vector opcodes with a 64-bit operand or destination according to the
+// manual (the decoder's RegCount is part of what is being checked).
+func wide64(f string, op int) bool {
+	if f == "VOPC" || f == "VOP3A" {
+		if op >= 224 && op <= 239 {
+			return true
+		}
+	}
+	return f == "VOP3A" && (op == 488 || op == 489 || op == 520 || (op >= 655 && op <= 657))
+}
+
 func opCode(o *insts.Operand) int {
 	if o == nil {
 		return -1
@@ -181,6 +192,9 @@ func run(c *Case) {
 	c.Src0, c.Src1, c.Src2, c.Dst = opCode(inst.Src0), opCode(inst.Src1), opCode(inst.Src2), opCode(inst.Dst)
 	if inst.SImm16 != nil {
 		c.Simm = int(inst.SImm16.IntValue)
+	}
+	if inst.SDst != nil {
+		c.Simm = opCode(inst.SDst) // VOP3b: the scalar destination travels in the immediate slot of the Coq inst
 	}
 	for _, o := range []*insts.Operand{inst.Src0, inst.Src1, inst.Src2} {
 		if o != nil && o.OperandType == insts.LiteralConstant {
@@ -255,7 +269,7 @@ func run(c *Case) {
 		}
 	}
 	isVec := strings.HasPrefix(c.Fmt, "VOP")
-	for _, o := range []*insts.Operand{inst.Src0, inst.Src1, inst.Src2, inst.Dst} {
+	for _, o := range []*insts.Operand{inst.Src0, inst.Src1, inst.Src2, inst.Dst, inst.SDst} {
 		if o == nil || o.OperandType != insts.RegOperand {
 			continue
 		}
@@ -265,7 +279,11 @@ func run(c *Case) {
 		} else if o.Register != nil && o.Register.IsSReg() {
 			code = o.Register.RegIndex()
 		}
-		named(code, 2, isVec)
+		n := 1
+		if o.RegCount >= 2 || !isVec || wide64(c.Fmt, c.Op) {
+			n = 2
+		}
+		named(code, n, isVec)
 	}
 	c.NDiff = 0
 	for i := 0; i < len(s0)/4; i++ {
@@ -962,20 +980,23 @@ type OpInfo struct {
 }
 
 type Output struct {
-	Ops   []OpInfo `json:"ops"`
-	Cases []Case   `json:"cases"`
+	Ops          []OpInfo       `json:"ops"`
+	Cases        []Case         `json:"cases"`
+	Closure      []ClosureEntry `json:"closure,omitempty"`
+	ClosureStats map[string]int `json:"closure_stats,omitempty"`
 }
 
 var fmtMax = []struct {
 	f   string
 	max int
-}{{"SOP2", 52}, {"SOP1", 55}, {"SOPC", 20}, {"SOPK", 21}, {"SOPP", 30}, {"VOP2", 62}}
+}{{"SOP2", 52}, {"SOP1", 55}, {"SOPC", 20}, {"SOPK", 21}, {"SOPP", 30}}
 
 func main() {
 	seed := flag.Uint64("seed", 1, "seed")
 	per := flag.Int("per", 30, "cases per implemented scalar opcode")
 	perv := flag.Int("perv", 4, "cases per implemented vector opcode")
 	grid := flag.Bool("grid", true, "include the deterministic corner cross products")
+	kernels := flag.String("kernels", "", "repository root: also decode every shipped .hsaco and report the opcode closure")
 	out := flag.String("out", "", "output JSON file")
 	rep := flag.String("replay", "", "JSON file with cases to replay")
 	flag.Parse()
@@ -1039,6 +1060,40 @@ func main() {
 				}
 			}
 		}
+	}
+	if *rep == "" {
+		rng := vh.NewRng(*seed ^ 0x5eed)
+		for _, alu := range []string{"gcn3", "cdna3"} {
+			for _, v := range vecOps {
+				if v.alus != "" && v.alus != alu {
+					continue
+				}
+				ok, note := vecImplemented(alu, v)
+				res.Ops = append(res.Ops, OpInfo{alu, v.fmt, v.op, ok, note})
+				if !ok {
+					continue
+				}
+				for i := 0; i < 2+*perv; i++ {
+					mode := i
+					if i >= 2 {
+						mode = 2
+					}
+					if mode < 2 && !*grid {
+						continue
+					}
+					c := vecCase(alu, v, rng.Fork(), mode)
+					wide, kinds, class := c.Wide, c.Kinds, c.Class
+					run(&c)
+					c.Wide, c.Kinds, c.Class = wide, kinds, class
+					res.Cases = append(res.Cases, c)
+				}
+			}
+		}
+	}
+	if *kernels != "" {
+		var nf, nk, und int
+		res.Closure, nf, nk, und = kernelClosure(*kernels)
+		res.ClosureStats = map[string]int{"files": nf, "kernels": nk, "undecodable_words": und}
 	}
 	data, _ := json.Marshal(res)
 	if *out == "" {
